@@ -88,6 +88,9 @@ func c20TwinsOne(c *core.Ctx, dir string, k c20TwinsCase) {
 }
 
 func c20TwinsRun(c *core.Ctx) {
+	if !c20Only("case-twins") {
+		return
+	}
 	dir := core.Scratch("c20twins")
 	n := len(c20TwinsAlphabet)
 	var idx int64
